@@ -183,6 +183,32 @@ example (port retries : Nat) :
   exact C02_whole_compressed ext id (fun _ => rfl) port retries cfg C02_whole_demoState (by decide) (by decide)
     ⟨trivial, trivial, rfl, rfl, by decide⟩ _ _ _ (List.Perm.refl _) (List.Perm.refl _) (List.Perm.refl _) (by decide)
 
+-- obsolete GoldSrc info layout (with mod data) behind 2 challenge rounds in a 3-fragment GoldSrc split, rules in a
+-- 2-fragment GoldSrc split arriving reversed
+example (ext : Ext) (port retries : Nat) :
+    let st : State := ⟨⟨47, [72, 76], [99, 50], [118], [72], 0, 2, 16, 1, .dedicated, .windows, true, false, none, [], none,
+        true, some ⟨[104], [100], 3, 70000, true, false⟩⟩, [⟨[80], 5, 0x3F800000, none, none⟩], [([107], [118])]⟩
+    let cfg : Config := ⟨.goldSrc true, ⟨.try_, .enforce, true⟩, false, [49, 46, 50, 58, 51],
+      ⟨[[5, 6, 7, 8], [0x41, 0, 0, 0]], .goldSplit 77 [9, 9]⟩, ⟨[], .single⟩, ⟨[[1, 1, 1, 1]], .goldSplit 78 [5]⟩⟩
+    (infoDatagrams cfg st).length = 3 ∧
+    (Valve.query ext port cfg.engine cfg.gather retries
+        (Net.init [.opened ((scriptAs cfg (infoDatagrams cfg st) (playersDatagrams cfg st)
+          (rulesDatagrams cfg st).reverse).map .data)] [])).1
+      = .ok ⟨st.info, some st.players, some st.rules⟩ := by
+  intro st cfg
+  refine ⟨by decide, ?_⟩
+  have h := C02_whole_any_order ext port retries cfg st (by decide) (by decide) (by decide) _ _ _
+    (List.Perm.refl _) (List.Perm.refl _) (List.reverse_perm _) (by decide)
+  rw [show expected cfg st = .ok ⟨st.info, some st.players, some st.rules⟩ by decide] at h
+  exact h
+
+-- the game view of that state: the hypothesis of `C02_game_view_fields` / `C02_whole_expected_fields` is satisfiable
+example : ∃ r, expected C02_whole_demoCfg C02_whole_demoState = .ok r
+    ∧ (Games.gameView r).name = [84, 70, 50] ∧ (Games.gameView r).port = some 27015
+    ∧ (Games.gameView r).rules = [([97], [98]), ([99, 100], [])] :=
+  ⟨⟨C02_whole_demoState.info, some C02_whole_demoState.players, some C02_whole_demoState.rules⟩, by decide, by decide,
+    by decide, by decide⟩
+
 -- the game view of that state
 example : (Games.gameView ⟨C02_whole_demoState.info, some C02_whole_demoState.players, some C02_whole_demoState.rules⟩).playersDetails
       = [⟨[80], -3, 0x41200000⟩, ⟨[81, 82], 70000, 0⟩] := by
